@@ -92,7 +92,7 @@ func compressBuffer(input []byte) ([]byte, error) {
 
 func normalizeFloat(in float64) int64 { return int64(math.Float64bits(in)) }
 func restoreFloat(in int64) float64   { return math.Float64frombits(uint64(in)) }
-func epochMs(t time.Time) int64       { return t.UnixNano() / 1000000 }
+func epochMs(t time.Time) int64       { return t.UnixMilli() }
 func timeEpocMs(in int64) time.Time   { return time.Unix(in/1000, in%1000*1000000) }
 
 func isNum(num int, val *birch.Value) bool {
